@@ -42,6 +42,7 @@
 
 #include <dune/common/bigunsignedint.hh>
 #include <dune/common/binaryfunctions.hh>
+#include <dune/common/dynvector.hh>
 #include <dune/common/fvector.hh>
 #include <dune/common/parallel/communication.hh>
 #include <dune/common/parallel/indexset.hh>
@@ -744,6 +745,29 @@ std::vector<T> callRed(CC& cc, const std::string& fn, const std::string& form, s
   else {
     if (!vec && n != 1) throw Unsupported{};
     if ((int)in.size() != n || (int)out.size() != n) throw Unsupported{};
+    // R4: the same MPIData container view instantiated for two more containers: std::array<T,3> (no resize(): static_size)
+    // and Dune::DynamicVector<T>; forms a{rv,iio,iip} / d{rv,iio,iip}
+    if (form == "arv" || form == "aiio" || form == "aiip" || form == "drv" || form == "diio" || form == "diip") {
+      if constexpr (!vec) throw Unsupported{};
+      else {
+        const bool arr = form[0] == 'a';
+        const std::string f2 = form.substr(1);
+        if (arr && n != 3) throw Unsupported{};
+        if (f2 == "rv" && !isMpi) throw Unsupported{};
+        auto run = [&](auto cin, auto cout) {
+          using C = decltype(cin);
+          std::copy(in.begin(), in.end(), cin.begin());
+          std::copy(out.begin(), out.end(), cout.begin());
+          C res(cin);
+          if (f2 == "rv") { if constexpr (isMpi) res = cc.template allreduce<F>(std::move(cin)); }
+          else if (f2 == "iio") res = cc.template iallreduce<F>(std::move(cin), std::move(cout)).get();
+          else res = cc.template iallreduce<F>(std::move(cin)).get();
+          return std::vector<T>(res.begin(), res.end());
+        };
+        if (arr) return run(std::array<T, 3>{}, std::array<T, 3>{});
+        return run(Dune::DynamicVector<T>(n), Dune::DynamicVector<T>(n));
+      }
+    }
     if (form == "rv") {
       if constexpr (isMpi) {
         if constexpr (vec) return cc.template allreduce<F>(std::move(in));
@@ -1733,6 +1757,12 @@ static std::string genColl(Rng& g, int P, const Force* force = nullptr) {
     if (light && isGenericFun(fn)) forms = {"ip", "io"};
     // container views: a vector<T> with a generic functor; a FieldVector object reduced entry by entry (functor on int)
     if (!light && isVGeneric(fn)) { forms.push_back("viio"); forms.push_back("viip"); if (!seq) forms.push_back("vrv"); }
+    // R4: std::array<T,3> / DynamicVector<T> handed to the MPIData based reductions (intrinsic T, predefined MPI_Op)
+    const bool namedFn0 = fn == "sum" || fn == "prod" || fn == "min" || fn == "max";
+    if (!light && intr && namedFn0 && g.coin(1, 2)) {
+      forms = {"aiio", "aiip", "diio", "diip"};
+      if (!seq) { forms.push_back("arv"); forms.push_back("drv"); }
+    }
     bool kform = (force && force->kform) || (!force && !forceNc && k.ty == "fv3" && g.coin(1, 4));
     if (kform) {
       if (!isGenericFun(fn)) fn = g.pick(std::vector<std::string>{"sum", "prod", "min", "max"});
@@ -1742,7 +1772,9 @@ static std::string genColl(Rng& g, int P, const Force* force = nullptr) {
     form = g.pick(forms);
     bool namedFn = fn == "sum" || fn == "prod" || fn == "min" || fn == "max";
     if (form == "sc" || (!(intr && namedFn) && (form == "iio" || form == "iip" || form == "rv")) || form[0] == 'k') k.n = 1;
-    if (form == "iio" || form == "iip" || form == "rv" || form[0] == 'k' || form[0] == 'v') k.pad = 0;
+    const bool aform = form == "arv" || form == "aiio" || form == "aiip", dform = form == "drv" || form == "diio" || form == "diip";
+    if (aform) k.n = 3;
+    if (form == "iio" || form == "iip" || form == "rv" || form[0] == 'k' || form[0] == 'v' || aform || dform) k.pad = 0;
     k.op = "red." + fn + "." + form;
     const std::string pf = plainFun(fn);
     std::string purpose = (pf == "sum" || pf == "prod" || pf == "xor" || pf == "aff") ? pf : "any";
